@@ -26,6 +26,7 @@ type rhash struct {
 type rclos struct {
 	fn  *Node
 	env *rframe
+	act int // activation that created it (0 = top level)
 }
 type rprim struct{ name string }
 type rthunk struct {
@@ -75,6 +76,20 @@ type refEval struct {
 	budget     int
 	probeCalls int
 	failAt     int // probe call number that fails (0 = never)
+
+	// instrumentation for non-triviality rules
+	actStack     []int
+	nextAct      int
+	escapedCalls int // calls of a closure whose creating activation has already returned
+	shadowUses   int // variable uses where the name is bound in >= 2 frames on the chain
+	maxDepth     int // deepest call nesting reached
+}
+
+func (r *refEval) curAct() int {
+	if len(r.actStack) == 0 {
+		return 0
+	}
+	return r.actStack[len(r.actStack)-1]
 }
 
 func newRef(budget int) *refEval {
@@ -152,7 +167,13 @@ func (r *refEval) eval(n *Node, env *rframe) (rval, error) {
 	case "key":
 		return rsym{n.S}, nil
 	case "var":
-		if v, _, ok := env.lookup(n.S); ok {
+		if v, fr, ok := env.lookup(n.S); ok {
+			for c := fr.parent; c != nil; c = c.parent {
+				if _, also := c.vars[n.S]; also {
+					r.shadowUses++
+					break
+				}
+			}
 			return v, nil
 		}
 		if refPrims[n.S] {
@@ -277,9 +298,9 @@ func (r *refEval) eval(n *Node, env *rframe) (rval, error) {
 	case "continue":
 		return nil, &rctl{brk: false, label: n.Label}
 	case "fn":
-		return &rclos{fn: n, env: env}, nil
+		return &rclos{fn: n, env: env, act: r.curAct()}, nil
 	case "defn":
-		env.vars[n.S] = &rclos{fn: n, env: env}
+		env.vars[n.S] = &rclos{fn: n, env: env, act: r.curAct()}
 		return rnil{}, nil
 	case "call":
 		callee, err := r.eval(n.Kids[0], env)
@@ -439,7 +460,24 @@ func (r *refEval) applyClosure(c *rclos, args []rval) (rval, error) {
 			fr.vars[names[i]] = args[i]
 		}
 	}
+	if c.act != 0 {
+		live := false
+		for _, a := range r.actStack {
+			if a == c.act {
+				live = true
+			}
+		}
+		if !live {
+			r.escapedCalls++
+		}
+	}
+	r.nextAct++
+	r.actStack = append(r.actStack, r.nextAct)
+	if len(r.actStack) > r.maxDepth {
+		r.maxDepth = len(r.actStack)
+	}
 	v, err := r.evalBody(c.fn.Kids, fr)
+	r.actStack = r.actStack[:len(r.actStack)-1]
 	if err != nil {
 		if _, isCtl := err.(*rctl); isCtl {
 			return nil, &rerr{"other", "break/continue escaped a function"}
